@@ -35,10 +35,11 @@ from jug.backends.redis_store import redis_store
 
 EVIDENCE = dict(
     level='proof',
-    rule='case = one operation sequence (<= 25 operations over 4 keys) on one store configuration, with the result of every '
+    rule='case = one operation sequence (<= 30 operations over 4 keys) on one store configuration, with the result of every '
          'operation as observed on the real store; non-trivial when it contains a dump followed by at least one observing '
          'operation (load/can_load/list/remove/remove_many/cleanup/pack/killed pack/reopen); distinct = distinct (configuration, operations) '
-         'tuples; besides the random sequences, one round-trip sequence (dump, load, pack, reopen, load, list, remove) per '
+         'tuples; a third of the random sequences on reopenable configurations are made of sessions (close+reopen '
+         'boundaries) that each issue ONE kind of state-changing operation; besides the random sequences, one round-trip sequence (dump, load, pack, reopen, load, list, remove) per '
          '(value of the universe, configuration; the removal is remove / remove_many / cleanup in turn; on the packing '
          'configuration the pack is complete or killed before its first unlink).  Frame cases = (value, compress_numpy) pairs.',
     explanation='Coq refinement theorems (file/dict/redis bookkeeping vs. a finite map, all operation sequences) + framing '
@@ -595,6 +596,51 @@ def gen_ops(rng, U, pack, reopen):
     return ops
 
 
+SESSION_KINDS = ('dump', 'remove', 'remove_many', 'cleanup', 'none', 'pack', 'pack_crash')
+
+
+def session_mutation(rng, U, kind, live=None):
+    nk = len(KEYS)
+    if kind == 'dump':
+        return ('dump', rng.randint(1, nk), U.pick(rng))
+    if kind == 'remove':
+        return ('remove', rng.choice(sorted(live)) if live and rng.random() < 0.8 else rng.randint(1, nk))
+    if kind == 'remove_many':
+        return ('remove_many', [rng.randint(1, nk) for _ in range(rng.randint(1, 3))])
+    if kind == 'cleanup':
+        return ('cleanup', sorted(rng.sample(range(1, nk + 1), rng.randint(0, nk - 1))))
+    if kind == 'pack':
+        return ('pack',)
+    if kind == 'pack_crash':
+        return ('pack_crash', rng.choice([0, 0, 1, 2]))
+    raise ValueError(kind)
+
+
+def gen_session_ops(rng, U, pack):
+    """A history made of SESSIONS (the operations between two close+reopen): after a first session that fills
+    the store, every session issues exactly ONE kind of state-changing operation (only dumps, only remove, only
+    remove_many, only cleanup, only pack, a killed pack, or nothing at all), once or twice, possibly between
+    observations; the next session starts by observing everything.  What a store object persists when it is
+    closed must not depend on which operation changed it."""
+    nk = len(KEYS)
+    kinds = [k for k in SESSION_KINDS if pack or not k.startswith('pack')]
+    ops = []
+    for k in rng.sample(range(1, nk + 1), rng.randint(2, nk)):
+        ops.append(('dump', k, U.pick(rng)))
+    for _ in range(rng.randint(1, 3)):
+        ops.append(('reopen',))
+        kind = rng.choice(kinds)
+        for _ in range(0 if kind == 'none' else rng.choice([1, 1, 2])):
+            if rng.random() < 0.3:
+                ops.append(rng.choice([('list',), ('load', rng.randint(1, nk)), ('can_load', rng.randint(1, nk))]))
+            ops.append(session_mutation(rng, U, kind, live=range(1, nk + 1)))
+        ops.append(('reopen',))
+        ops.append(('list',))
+        for k in rng.sample(range(1, nk + 1), rng.randint(2, nk)):
+            ops.append((rng.choice(['load', 'can_load']), k))
+    return ops
+
+
 def poslit(i):
     return '%d%%positive' % i
 
@@ -890,6 +936,24 @@ def run(ck):
                     ops += [('reopen',), ('load', 1)]
                 ops += [('list',), [('remove', 1), ('remove_many', [1, 2]), ('cleanup', [2])][vi % 3], ('can_load', 1)]
                 jobs.append((name, backend, opts, ops, True))
+    # every reopenable configuration x every kind of single-mutation session, once (see gen_session_ops)
+    ids3 = [U.by_name[n] for n in ('1', '[]', 'arr-int64')]
+    for name, backend, opts0 in CONFIGS:
+        if name == 'dict':
+            continue
+        for comp in ((False, True) if opts0.get('compress', 0) is None else (None,)):
+            opts = dict(opts0)
+            if comp is not None:
+                opts['compress'] = comp
+            for kind in SESSION_KINDS:
+                if kind.startswith('pack') and not opts.get('pack'):
+                    continue
+                mut = {'dump': [('dump', 2, ids3[0]), ('dump', 4, ids3[1])], 'remove': [('remove', 2)],
+                       'remove_many': [('remove_many', [3, 1])], 'cleanup': [('cleanup', [1, 4])], 'none': [],
+                       'pack': [('pack',)], 'pack_crash': [('pack_crash', 1)]}[kind]
+                ops = ([('dump', 1, ids3[0]), ('dump', 2, ids3[1]), ('dump', 3, ids3[2]), ('reopen',)] + mut
+                       + [('reopen',), ('list',), ('can_load', 1), ('can_load', 2), ('load', 3), ('can_load', 4)])
+                jobs.append((name, backend, opts, ops, True))
     nfixed = len(jobs)
     for i in range(nseq):
         name, backend, opts = CONFIGS[i % len(CONFIGS)]
@@ -897,7 +961,11 @@ def run(ck):
         if opts.get('compress', 0) is None:
             opts['compress'] = bool((i // len(CONFIGS)) % 2)
         reopen = name != 'dict'
-        ops = gen_ops(ck.rng, U, pack=bool(opts.get('pack')), reopen=reopen)
+        if reopen and (i // len(CONFIGS)) % 3 == 2:
+            ops = gen_session_ops(ck.rng, U, pack=bool(opts.get('pack')))
+            ck.count('histories made of single-mutation sessions')
+        else:
+            ops = gen_ops(ck.rng, U, pack=bool(opts.get('pack')), reopen=reopen)
         jobs.append((name, backend, opts, ops, False))
 
     cases, meta = [], []
@@ -919,6 +987,13 @@ def run(ck):
                 ck.count('value:' + ('None' if e['isnone'] else 'ndarray' if e['isarr'] else
                                      'ndarray-subclass' if isinstance(e['value'], np.ndarray) else 'other')
                          + (':small' if (e['small_raw'] if (e['isarr'] and not opts.get('compress', True)) else e['small_enc']) else ':large'))
+        if name != 'dict':
+            # sessions that are closed at both ends: which kinds of state-changing operation do they contain
+            idx = [j for j, op in enumerate(done) if op[0] == 'reopen']
+            for a_, b_ in zip(idx, idx[1:]):
+                kinds = sorted(set(op[0] for op in done[a_ + 1:b_] if op[0] in ('dump', 'remove', 'remove_many', 'cleanup', 'pack', 'pack_crash')))
+                ck.count('session between two reopens (%s):%s' % (
+                    backend, 'no mutation' if not kinds else ('only ' + kinds[0]) if len(kinds) == 1 else 'mixed'))
         if shape is not None and shape[0]:
             ck.count('final:has-packed-keys')
         if backend == 'file' and any(op[0] == 'pack_crash' for op in done):
